@@ -87,7 +87,7 @@ def _pts(rng, lo: float, hi: float, n: int, sort: bool = True, strict: bool = Fa
 
 def gen_term_args(rng, cls: str, lo: float, hi: float) -> dict[str, Any]:
     w = hi - lo
-    h = 1.0 if rng.random() < 0.75 else C(rng, [0.25, 0.5, 0.8, 0.999])
+    h = 1.0 if rng.random() < 0.75 else C(rng, [0.25, 0.5, 0.8, 0.999, 0.9995, 1.5])  # 1.5: not a valid height, but storable
     a: dict[str, Any]
     if cls in ("Arc", "Concave", "Ramp"):
         p = _pts(rng, lo, hi, 2, strict=True)
@@ -215,8 +215,17 @@ def gen_spec(rng, **knobs) -> dict:
     sn = rng.sample(SNORMS, rng.randint(1, len(SNORMS)))
     n_in = rng.randint(1, k["max_inputs"])
     n_out = rng.randint(1, k["max_outputs"])
-    names_in = [f"i{j}" for j in range(n_in)]
-    names_out = [f"o{j}" for j in range(n_out)]
+    # identifier pools (never keywords, hedges, registered function names, `x` or `k`): one-letter names, names
+    # containing a keyword as a substring, mixed case, digits, underscores
+    in_pool = C(rng, [["i0", "i1", "i2"], ["i0", "i1", "i2"], ["temp", "press", "flow"], ["x1", "x2", "x3"], ["A", "B", "C"],
+                      ["s", "t", "u"], ["island", "thenar", "iffy"], ["in_1", "in_2", "in_3"], ["Ambient", "Speed", "Load"]])
+    out_pool = C(rng, [["o0", "o1"], ["o0", "o1"], ["y", "z"], ["Power", "Valve"], ["out_1", "out_2"], ["w", "v"], ["result", "andy"]])
+    in_terms = C(rng, ["abcdef", "abcdef", ["low", "mid", "high", "vhigh", "peak", "none_"], ["S", "M", "L", "XL", "XXL", "Z"],
+                       ["t1", "t2", "t3", "t4", "t5", "t6"], ["is_low", "not_so", "very_hi", "orb", "withal", "anyone"]])
+    out_terms = C(rng, ["pqrstu", "pqrstu", ["cheap", "fair", "dear", "lux", "max_", "min_"], ["N", "P", "Q", "R", "T", "U"],
+                        ["c1", "c2", "c3", "c4", "c5", "c6"]])
+    names_in = in_pool[:n_in]
+    names_out = out_pool[:n_out]
     inputs = []
     for j in range(n_in):
         lo, hi = C(rng, [(0.0, 1.0), (0.0, 1.0), (-1.0, 1.0), (-10.0, 30.0), (0.0, 255.0)])
@@ -224,7 +233,7 @@ def gen_spec(rng, **knobs) -> dict:
         for t in range(rng.randint(1, 4)):
             r = rng.random()
             cls = C(rng, shapes) if r < 0.9 else ("Function" if r < 0.96 else "Constant")
-            terms.append(gen_term(rng, cls, "abcdef"[t], lo, hi, names_in, [], True))
+            terms.append(gen_term(rng, cls, in_terms[t], lo, hi, names_in, [], True))
         inputs.append({"name": names_in[j], "min": fenc(lo), "max": fenc(hi), "lock_range": rng.random() < k["input_lock_range"],
                        "enabled": rng.random() >= k["disabled"], "terms": terms})
     outputs = []
@@ -251,16 +260,16 @@ def gen_spec(rng, **knobs) -> dict:
                 cls = C(rng, ["Constant", "Ramp", "Triangle"])
                 over_x = True
             outs_ok = names_out if (k["fn_reads_output"] and fam == "takagi") else []
-            terms.append(gen_term(rng, cls, "pqrstu"[t], lo, hi, names_in, outs_ok, over_x))
+            terms.append(gen_term(rng, cls, out_terms[t], lo, hi, names_in, outs_ok, over_x))
         if fam == "mamdani":
-            dz = {"cls": C(rng, INTEGRAL), "resolution": C(rng, [5, 10, 20, 50, 100, 200])}
+            dz = {"cls": C(rng, INTEGRAL), "resolution": C(rng, [1, 2, 5, 10, 20, 50, 100, 200])}
             agg = C(rng, sn)
         else:
             typ = "Automatic" if rng.random() < 0.6 else {"takagi": "TakagiSugeno", "tsukamoto": "Tsukamoto", "inverse": "Automatic"}[fam]
             dz = {"cls": C(rng, WEIGHTED), "type": typ}
             agg = None if rng.random() < 0.5 else C(rng, sn)
         if k["cascade"]:
-            d = nan if rng.random() < 0.55 else C(rng, [lo, hi, lo + (hi - lo) * rng.random(), hi + 1.0, lo - 1.0])
+            d = nan if rng.random() < 0.55 else C(rng, [lo, hi, lo + (hi - lo) * rng.random(), hi + 1.0, lo - 1.0, inf, -inf])
             lp, lr = rng.random() < 0.4, rng.random() < 0.35
         else:
             d, lp, lr = nan, False, False
